@@ -170,10 +170,11 @@ impl Monitor for C12 {
             ("batch_judgements_whole_recovered", tier.pick(100_000, 2_000_000)),
             ("batch_judgements_truncated_suffix_recovered", tier.pick(500, 10_000)),
             ("damage_on_len_or_type_byte", tier.pick(5_000, 100_000)),
+            ("recoveries_with_one_failing_read", tier.pick(5_000, 100_000)),
         ]
     }
     fn rule(&self) -> String {
-        "case = one focused history (1..2 queues, 4..14 batch appends of 1..64 self-identifying records totalling 16 B .. 3 WAL files, plus frame-commensurate batches of 400..700 records of 169 bytes / 3..5 records of 32749 bytes (12+len divides the 32761-byte frame payload), interleaved truncations of the same queue, no deletions) under Always(Flush); crash leg: every file-system effect boundary and frame-relative byte cuts of every write; damage leg: every frame written by a batch x {payload bit, payload garbage, checksum, length byte, type byte}; evaluation = one recovery; oracle over batch boundaries known to the harness: each batch is recovered as nothing, everything, or a hole-free suffix ending at its last record whose missing head is at or below a truncate position issued on that queue; distinct_nontrivial = distinct (case, crash point or damaged frame+kind) inside or on a batch of >= 2 records".into()
+        "case = one focused history (1..2 queues, 4..14 batch appends of 1..64 self-identifying records totalling 16 B .. 3 WAL files, plus frame-commensurate batches of 400..700 records of 169 bytes / 3..5 records of 32749 bytes (12+len divides the 32761-byte frame payload), interleaved truncations of the same queue, no deletions) under Always(Flush); crash leg: every file-system effect boundary and frame-relative byte cuts of every write; damage leg: every frame written by a batch x {payload bit, payload garbage, checksum, length byte, type byte}; evaluation = one recovery; oracle over batch boundaries known to the harness: each batch is recovered as nothing, everything, or a hole-free suffix ending at its last record whose missing head is at or below a truncate position issued on that queue; read-fault leg: up to 10 recoveries of the final image with one read failing once (EIO): if open returns a log anyway the same oracle applies; distinct_nontrivial = distinct (case, crash point or damaged frame+kind) inside or on a batch of >= 2 records".into()
     }
     fn assumptions(&self) -> Vec<String> {
         vec!["records are >= 16 bytes and carry their (op, index, length) identity, positions are never re-used (no deletions in this workload), so membership of a recovered record in a batch is unambiguous".into()]
@@ -439,6 +440,40 @@ impl Monitor for C12 {
                     acc.count("damaged_open_not_ok_(Err_or_C10_territory)");
                 }
                 img.materialize(&dmg_dir);
+            }
+        }
+        // ---- read-fault leg ---------------------------------------------------------------
+        // one read of the recovery fails (transient EIO): if open still returns a log, the
+        // batches in it must be whole (a block that could not be read is a hole in the WAL)
+        {
+            let (_, sut0, evs0) = recover(&dmg_dir, run.policy, run.key);
+            drop(sut0);
+            let nreads = evs0.iter().filter(|e| matches!(e, Ev::Read { .. })).count() as i64;
+            let mut picks: Vec<i64> = (1..=nreads).collect();
+            while picks.len() > 10 {
+                let i = rng.below(picks.len() as u64) as usize;
+                picks.swap_remove(i);
+            }
+            for nth in picks {
+                let (r, sut, _) = super::crash::recover_faulted(&dmg_dir, run.policy, run.key, true, Some((crate::shim::CL_READ, nth, libc::EIO)));
+                drop(sut);
+                img.materialize(&dmg_dir);
+                acc.eval();
+                acc.count("recoveries_with_one_failing_read");
+                match r {
+                    Recovered::Ok(s) => {
+                        acc.count("recoveries_with_one_failing_read_that_returned_a_log_(C11_territory)");
+                        if let Err((what2, detail)) = judge(&s, &batches, &trunc_all) {
+                            acc.violation(
+                                format!("C12/read-fault/{}", what2),
+                                case,
+                                json!({"history": run.history_json(run.ops.len()), "failing_read_of_recovery": nth, "reads_of_a_fault_free_recovery": nreads, "observation": detail, "recovered": s.to_json()}),
+                            );
+                            return;
+                        }
+                    }
+                    _ => {}
+                }
             }
         }
         acc.sample(|| {
